@@ -353,9 +353,19 @@ namespace xsv
             else if (d.kind[i] == K_IEXP)
             {
                 const int emax = t == F32 ? 127 : 1023, emin = t == F32 ? -126 : -1022;
-                auto v = *rc::gen::container<std::vector<int>>((size_t)nmax, sized(rc::gen::weightedOneOf<int>({ { 3, rc::gen::inRange<int>(emin, emax + 1) }, { 2, rc::gen::inRange<int>(-40, 41) }, { 1, rc::gen::elementOf(std::vector<int> { emin, emin + 1, emax - 1, emax, 0, 1, -1 }) } })));
+                auto v = *rc::gen::container<std::vector<int>>((size_t)nmax, sized(rc::gen::weightedOneOf<int>({ { 3, rc::gen::inRange<int>(emin, emax + 1) }, { 2, rc::gen::inRange<int>(-40, 41) }, { 1, rc::gen::elementOf(std::vector<int> { emin, emin + 1, emax - 1, emax, 0, 1, -1 }) },
+                                                                                                                 // exponents whose power of two is not a normal number (the result often is)
+                                                                                                                 { 1, rc::gen::elementOf(std::vector<int> { emin - 1, emin - 2, emin - 30, emax + 1, emax + 2, 2 * emax, -2 * emax, 2 * emax + 40, 100000, -100000, 0x7fffffff, -0x7fffffff }) },
+                                                                                                                 { 1, rc::gen::inRange<int>(-2 * emax - 60, 2 * emax + 61) } })));
+                // double: the exponent lane is 64 bits wide; now and then a value beyond 32 bits
+                const int wide = t == F64 ? *sized(rc::gen::inRange<int>(0, 12)) : 0;
                 for (int l = 0; l < nmax; ++l)
-                    put_lane(c.in[i], s, l, (uint64_t)(int64_t)v[l]);
+                {
+                    int64_t ev = v[l];
+                    if (wide == 1 && (l % 3) == 0)
+                        ev = (int64_t)v[l] + ((l & 1) ? ((int64_t)1 << 32) : -((int64_t)1 << 32));
+                    put_lane(c.in[i], s, l, (uint64_t)ev);
+                }
             }
             else if (d.kind[i] == K_COUNT)
             {
